@@ -122,6 +122,20 @@ def external(smt2, timeout_s):
 
 
 QUICK_MS = 2500
+_beta_cache = {}
+
+
+def _beta(f):
+    k = f.get_id()
+    if k not in _beta_cache:
+        txt = None
+        try:
+            r = z3.simplify(f, som=False, flat=False, elim_and=False, blast_distinct=False, arith_lhs=False,
+                            sort_sums=False, hoist_mul=False, mul_to_power=False, algebraic_number_evaluator=False)
+        except Exception:
+            r = f
+        _beta_cache[k] = (f, r)      # keep f alive so that its id is not reused
+    return _beta_cache[k][1]
 
 
 def _z3_check(hyps, neg, nl, timeout_ms):
@@ -137,7 +151,11 @@ def _z3_check(hyps, neg, nl, timeout_ms):
 def prove(ob, axioms=(), timeout_ms=60000, use_external=True):
     """Portfolio: z3 API briefly, then cvc5 and z3 4.8 on the dump, then z3 API with the full budget."""
     t0 = time.time()
-    hyps = list(axioms) + ob.hyps
+    # beta-reduce applications of lambda terms (set/dict algebra) before anything else: z3's array theory gives
+    # up at once ("incomplete (theory array)") on nested lambdas that the rewriter removes trivially
+    ob.hyps = [_beta(h) for h in ob.hyps]
+    ob.goal = _beta(ob.goal)
+    hyps = [_beta(a) for a in axioms] + ob.hyps
     if ob.expect_sat:
         # cover: some state satisfying the path condition and the predicate exists.  A strengthening that is
         # sat proves reachability, so when the plain query is unknown (quantified hypotheses) it is retried
@@ -218,6 +236,12 @@ def prove(ob, axioms=(), timeout_ms=60000, use_external=True):
         reason = "z3 unknown: %s" % s.reason_unknown()
     if ext_sat:
         reason += "; an external solver answered sat (no model extracted)"
+    # model search in a small finite universe: adding "every element of an uninterpreted sort is one of k
+    # constants" (and short sequences) only strengthens the query, so a model found this way is a model of the
+    # original query; it makes the quantifiers finite, which is what z3's model finder needs.
+    res = _finite_model(ob, hyps, neg, nl, min(15000, timeout_ms), t0)
+    if res is not None:
+        return res
     # candidate counterexample: the quantified hypotheses are dropped to obtain *some* model; such a model
     # proves nothing by itself and is only ever reported after it has been replayed on the real code.
     if ob.concretise is not None:
@@ -240,6 +264,51 @@ def prove(ob, axioms=(), timeout_ms=60000, use_external=True):
     if ext_sat:
         return Result(ob, "failed", ext_backend, time.time() - t0, model={}, reason=reason)
     return Result(ob, "undecided", "z3-api", time.time() - t0, reason=reason)
+
+
+def _finite_model(ob, hyps, neg, nl, budget_ms, t0):
+    from z3 import z3util
+    fs = hyps + [neg]
+    try:
+        vars_ = z3util.get_vars(z3.And(*fs))
+    except Exception:
+        return None
+    usorts = {}
+    for v in vars_:
+        srt = v.sort()
+        if srt.kind() == z3.Z3_UNINTERPRETED_SORT:
+            usorts[srt.name()] = srt
+    # sorts that only occur below containers
+    for f in fs:
+        for m in ("Val",):
+            pass
+    seqs = [v for v in vars_ if z3.is_seq(v)]
+    from .pyvc.values import Val
+    usorts.setdefault("Val", Val)
+    for k in (2, 3, 4):
+        s = z3.Solver()
+        s.set("timeout", int(budget_ms / 3))
+        s.add(*fs)
+        if nl:
+            s.add(*nl)
+        for name, srt in usorts.items():
+            cs = [z3.Const("u!%s!%d" % (name, i), srt) for i in range(k)]
+            x = z3.Const("x!fin", srt)
+            s.add(z3.ForAll([x], z3.Or(*[x == c for c in cs])))
+        s.add(*[z3.Length(v) <= k for v in seqs])
+        if s.check() == z3.sat:
+            m = s.model()
+            if not _validate(m, ob.hyps, neg):
+                continue
+            md = _model_dict(m, ob.witness)
+            if ob.concretise is not None:
+                try:
+                    md["__case__"] = ob.concretise(m)
+                except Exception as e:
+                    md["__case__"] = {"__error__": repr(e)}
+            return Result(ob, "failed", "z3-api", time.time() - t0, model=md,
+                          reason="model found in a finite universe of %d elements per uninterpreted sort" % k)
+    return None
 
 
 # ---------------------------------------------------------------------------------------------
